@@ -227,6 +227,22 @@ Definition collector_session (H : handshake) (c : coll_input) (cl : endpoint) : 
     else if plain_serve H "udp" cl then Some ConnPlain else None
   else None.
 
+(* CollectingProcess.Start comes up as an endpoint at all: startTCPServer returns before
+   tls.Listen when createServerConfig fails (key pair, or CACert non-nil from which no certificate
+   parses: "failed to parse root certificate"), startUDPServer returns before dtls.Listen when
+   the key pair fails; any other protocol string: Start does nothing.  false = no socket is ever
+   opened, GetAddress stays nil, nobody can be served. *)
+Definition collector_listens (c : coll_input) : bool :=
+  if ci_proto c =? "tcp" then
+    if ci_enc c then match create_server_config c with ROk _ => true | RErr _ => false end else true
+  else if ci_proto c =? "udp" then
+    if ci_enc c then match dtls_server_config c with ROk _ => true | RErr _ => false end else true
+  else false.
+
+(* client-CA material was supplied but no certificate parses out of it *)
+Definition unusable_ca (c : coll_input) : bool :=
+  match ci_ca c with Some [] => true | _ => false end.
+
 (* ---------------------------------------------------------------- the property, per observation
    (the bodies of the theorems; applied by the driver to the implementation's observations) *)
 Definition tls_expected_name (server_name host : string) : string :=
